@@ -269,6 +269,9 @@ impl UnsettledMessage {
 impl LinkRelay<OutputHandle> {
     pub open spec fn s_unsettled(self) -> Map<DeliveryTag, UnsettledMessage> { omap(self->Sender_unsettled) }
     pub open spec fn r_unsettled(self) -> Map<DeliveryTag, Option<DeliveryState>> { omap(self->Receiver_unsettled) }
+    pub open spec fn tx_of(self) -> ChanSender<LinkFrame> {
+        match self { LinkRelay::Sender { tx, .. } => tx, LinkRelay::Receiver { tx, .. } => tx }
+    }
     pub open spec fn rsm(self) -> ReceiverSettleMode {
         match self { LinkRelay::Sender { receiver_settle_mode, .. } => receiver_settle_mode, LinkRelay::Receiver { receiver_settle_mode, .. } => receiver_settle_mode }
     }
@@ -315,6 +318,23 @@ impl LinkRelay<OutputHandle> {
                     }
                     assert forall|j: int| __im0 <= j < ord0.len() implies #[trigger] map@[ord0[j]] == mm0[ord0[j]] by { assert(ord0[j] != ord0[__im0 - 1]); }
                 }
+//@@ end
+
+//@@ fn file=fe2o3-amqp/src/link/mod.rs impl=`impl LinkRelay<OutputHandle>` name=on_incoming_detach as=relay_on_incoming_detach
+//@@ ret Result<(), ChanSendError>
+//@@ subst `self.abandon_pending_deliveries()` => `self.abandon_pending_deliveries()` rule=optional-S
+//@@ spec
+    ensures
+        r is Ok ==> final(self).tx_of().sent@ == old(self).tx_of().sent@.push(LinkFrame::Detach(detach)),         // [C13.relay.detach-reaches-the-link] the peer's detach is handed to the link endpoint, unchanged
+        r is Err ==> final(self).tx_of().sent@ == old(self).tx_of().sent@,
+        *old(self) is Sender ==> ({
+            let m0 = old(self).s_unsettled();
+            let m1 = final(self).s_unsettled();
+            &&& m1.dom() =~= m0.dom()
+            &&& forall|k: DeliveryTag| m0.contains_key(k) ==> (#[trigger] m1[k]).sender.detached()               // [C14.link-detach.pending-sends-released] when the peer detaches the link, every send that still waits for its delivery's outcome is released: no disposition for it can arrive on this attachment any more, and the link endpoint does not look at its queue while it waits for an outcome -- without this, `send()` (and the future of every earlier `send_batchable()`) waits for ever although the peer has closed the link, and the peer's closing handshake is never answered
+                    && m1[k] == (UnsettledMessage { sender: m1[k].sender, ..m0[k] })                               // [C14.link-detach.delivery-kept-for-resumption] the deliveries stay unsettled: a link that was detached, not closed, can resume them
+        }),
+        *old(self) is Receiver ==> final(self)->Receiver_unsettled == old(self)->Receiver_unsettled,
 //@@ end
 
 //@@ fn file=fe2o3-amqp/src/link/mod.rs impl=`impl LinkRelay<OutputHandle>` name=on_incoming_disposition retname=echo
